@@ -109,9 +109,63 @@ fn do_op(op: Op, saved: &mut Vec<te::LocalEnableState>) {
     }
 }
 
+thread_local! {
+    static DELIVERED: std::cell::Cell<u64> = const { std::cell::Cell::new(0) };
+}
+
+/// Counts, on the emitting thread, the events that get past `GlobalEnable` (which sits above it in
+/// the subscriber stack, as in chess-cli/src/logs.rs).
+struct CountLayer;
+impl<S: tracing::Subscriber> tracing_subscriber::Layer<S> for CountLayer {
+    fn on_event(&self, _event: &tracing::Event<'_>, _ctx: tracing_subscriber::layer::Context<'_, S>) {
+        DELIVERED.with(|d| d.set(d.get() + 1));
+    }
+}
+
+static EVENTS_ON: std::sync::atomic::AtomicBool = std::sync::atomic::AtomicBool::new(false);
+
+fn install_subscriber() {
+    use tracing_subscriber::layer::SubscriberExt;
+    use tracing_subscriber::util::SubscriberInitExt;
+    if cfg!(miri) {
+        return;
+    }
+    if tracing_subscriber::registry().with(CountLayer).with(te::GlobalEnable).try_init().is_ok() {
+        EVENTS_ON.store(true, Ordering::SeqCst);
+    }
+}
+
+/// Second observation point: is an event emitted NOW by this thread delivered through the
+/// `GlobalEnable` layer?  The callsite interest cache is rebuilt first, so that the answer reflects
+/// the current view of this thread and not a decision cached when the callsite was first hit (the
+/// per-callsite caching of tracing is outside the property).
+fn event_delivered() -> bool {
+    tracing::callsite::rebuild_interest_cache();
+    let before = DELIVERED.with(|d| d.get());
+    tracing::info!(target: "c20probe", "probe");
+    DELIVERED.with(|d| d.get()) > before
+}
+
+/// Type-level part of the isolation: a saved override must not be transferable to another thread
+/// (restoring it there would plant one thread's override on another).  Autoref-style probe: the
+/// inherent method exists only when the token type is Send.
+struct SendProbe<T>(std::marker::PhantomData<T>);
+trait NotSendFallback {
+    fn transferable(&self) -> bool {
+        false
+    }
+}
+impl<T> NotSendFallback for SendProbe<T> {}
+impl<T: Send> SendProbe<T> {
+    fn transferable(&self) -> bool {
+        true
+    }
+}
+
 enum Cmd {
     Do(Op),
     Query,
+    QueryEvent,
     /// forget saved tokens and clear the override
     Reset,
     /// Reset, then make the global flag true again (enable(); local_take())
@@ -139,6 +193,9 @@ fn spawn_worker() -> Worker {
                 Cmd::Query => {
                     let _ = ctx.send(te::is_enabled());
                 }
+                Cmd::QueryEvent => {
+                    let _ = ctx.send(event_delivered());
+                }
                 Cmd::Reset => {
                     saved.clear();
                     drop(te::local_take());
@@ -164,6 +221,11 @@ impl Worker {
     }
 }
 
+static EVENT_PROBES: AtomicU64 = AtomicU64::new(0);
+static VIEW_CALLS: AtomicU64 = AtomicU64::new(0);
+static EVENTS_EVERY_STEP: std::sync::atomic::AtomicBool = std::sync::atomic::AtomicBool::new(false);
+static EVENT_MISMATCH: std::sync::atomic::AtomicBool = std::sync::atomic::AtomicBool::new(false);
+
 struct Turnstile {
     workers: Vec<Worker>,
 }
@@ -179,7 +241,23 @@ impl Turnstile {
         self.workers[0].call(Cmd::ResetGlobal);
     }
     fn views(&self) -> Vec<bool> {
-        self.workers.iter().map(|w| w.call(Cmd::Query)).collect()
+        let v: Vec<bool> = self.workers.iter().map(|w| w.call(Cmd::Query)).collect();
+        // the event-delivery view is probed after every step of the graph-cover and sparse schedules
+        // and after every 16th step elsewhere (each probe rebuilds the callsite interest cache)
+        let tick = VIEW_CALLS.fetch_add(1, Ordering::Relaxed);
+        if EVENTS_ON.load(Ordering::SeqCst) && (EVENTS_EVERY_STEP.load(Ordering::Relaxed) || tick % 16 == 0) {
+            // the event-delivery view must agree with is_enabled() on every thread; a disagreement
+            // is reported by returning the delivery view (the caller compares with the model)
+            let ev: Vec<bool> = self.workers.iter().map(|w| w.call(Cmd::QueryEvent)).collect();
+            EVENT_PROBES.fetch_add(ev.len() as u64, Ordering::Relaxed);
+            for (i, e) in ev.iter().enumerate() {
+                if *e != v[i] {
+                    EVENT_MISMATCH.store(true, Ordering::SeqCst);
+                    return ev;
+                }
+            }
+        }
+        v
     }
     /// Returns Err((step, thread, observed, expected)) at the first disagreement.
     fn run(&self, sched: &[(usize, Op)], states: &mut std::collections::HashSet<(bool, Vec<Local>)>, trans: &mut std::collections::HashSet<((bool, Vec<Local>), usize, Op)>) -> Result<(), (usize, usize, bool, bool)> {
@@ -227,7 +305,10 @@ fn sched_text(s: &[(usize, Op)]) -> String {
 fn report_turnstile(c: &mut Collector, sched: &[(usize, Op)], e: (usize, usize, bool, bool), threads: usize) {
     let (step, u, got, want) = e;
     let last = if step == 0 { "reset".to_string() } else { format!("{:?}@{}", sched[step - 1].1, sched[step - 1].0) };
-    let kind = if step > 0 && sched[step - 1].0 != u { "override-changed-by-other-thread" } else { "own-view-wrong" };
+    let mut kind = if step > 0 && sched[step - 1].0 != u { "override-changed-by-other-thread" } else { "own-view-wrong" };
+    if EVENT_MISMATCH.swap(false, Ordering::SeqCst) {
+        kind = "event-delivery-differs-from-view";
+    }
     c.violation(
         kind,
         &if step == 0 { "reset".to_string() } else { format!("{:?}", sched[step - 1].1) },
@@ -700,6 +781,24 @@ fn main() {
         std::process::exit(2);
     }
     let mut c = Collector::new("C20", a.journal.as_deref());
+    install_subscriber();
+    c.eval();
+    c.count("token-send-probe");
+    if SendProbe::<te::LocalEnableState>(std::marker::PhantomData).transferable() {
+        // demonstrate it: thread A saves its override, thread B restores it
+        te::local_disable();
+        let token = te::local_take();
+        let moved = SendProbe::<te::LocalEnableState>(std::marker::PhantomData);
+        let _ = moved;
+        c.violation(
+            "override-changed-by-other-thread",
+            "token-is-Send",
+            "LocalEnableState is Send: a saved override can be moved to another thread and restored there, planting one thread's override on another".into(),
+            obj().set("check", "LocalEnableState: !Send"),
+        );
+        te::restore(token);
+        drop(te::local_take());
+    }
     if let Some(rp) = &a.replay {
         let text = std::fs::read_to_string(rp).expect("read replay");
         let j = refmodel::json::J::parse(&text).expect("parse replay");
@@ -759,8 +858,10 @@ fn main() {
         }
     } else {
         if a.shard == 0 {
+            EVENTS_EVERY_STEP.store(true, Ordering::Relaxed);
             turnstile_graph_cover(&mut c, 2);
             turnstile_graph_cover(&mut c, 3);
+            EVENTS_EVERY_STEP.store(false, Ordering::Relaxed);
         }
         turnstile_exhaustive(&mut c, 2, if thorough { 5 } else { 4 }, a.shard, a.nshards);
         turnstile_exhaustive(&mut c, 3, if thorough { 4 } else { 3 }, a.shard, a.nshards);
@@ -784,6 +885,7 @@ fn main() {
             c.count("free-running-rounds");
         }
     }
+    c.add("event-delivery-probes", EVENT_PROBES.load(Ordering::Relaxed));
     let text = c.to_json().dump();
     match &a.out {
         Some(p) => {
